@@ -445,7 +445,7 @@ Section Readers.
         | IUnk => TUnk
         | IErr => TErr (st, yrz, co2s)
         | IRec (y, yd, r) c =>
-            if negb first && (yd =? 1) && negb (maxd_at st (Z.to_nat (yrz - 1)) =? ylen (y - 1)) then TErr (st, yrz, co2s) else
+            if negb first && (yd =? 1) && negb (prev_year_ok st yrz y) then TErr (st, yrz, co2s) else
             let cur := match c with Some v => Some v | None => cur end in
             let '(Tv, yrz) := if first then (yd, 1)
                               else if yd =? 1 then (1, yrz + 1) else (Tv, yrz) in
